@@ -1,6 +1,7 @@
 package props
 
 import (
+	"sync"
 	"strings"
 	"encoding/json"
 	"fmt"
@@ -208,9 +209,13 @@ func (p *c20) Run(tier string, seed int64, idx int) core.CaseResult {
 		res.Fail("C20/valid-set-rejected", input, base.Err)
 		return res
 	}
+	seqDump := map[string]string{}
 	for _, fl := range c20Filters {
 		fr := compileTexts(texts, nil, feats, fl.f, true)
 		res.Ev("filtered_compilations", 1)
+		if fr.Accepted() {
+			seqDump[fl.name] = fr.Dump
+		}
 		in := "filter=" + fl.name + "\n" + input
 		if fr.Panic != "" {
 			res.Fail("C20/panic/"+fl.name+"/"+core.TopRepoFrame(fr.Stack), in, fr.Panic)
@@ -240,6 +245,34 @@ func (p *c20) Run(tier string, seed int64, idx int) core.CaseResult {
 		}
 		if got != want {
 			res.Fail("C20/filtered-schema-differs-from-pruned-schema/"+fl.name, in, firstDiff(want, got)+"\n(- pruned unfiltered schema, + filtered compilation)")
+		}
+	}
+	// ---- the same compilations side by side, each on texts parsed for it alone: a filter belongs to the compilation it
+	// was given to, whatever else is being compiled at the time
+	if idx%4 == 1 {
+		outs := make([]compileResult, len(c20Filters))
+		var wg sync.WaitGroup
+		start := make(chan struct{})
+		for i := range c20Filters {
+			wg.Add(1)
+			go func(i int) {
+				defer wg.Done()
+				<-start
+				outs[i] = compileTexts(texts, nil, feats, c20Filters[i].f, true)
+			}(i)
+		}
+		close(start)
+		wg.Wait()
+		for i, fl := range c20Filters {
+			res.Ev("filtered_compilations_run_side_by_side", 1)
+			want, ok := seqDump[fl.name]
+			if !ok {
+				continue
+			}
+			if o := outs[i]; !o.Accepted() || o.Dump != want {
+				res.Fail("C20/filtered-compilation-differs-when-others-run-beside-it/"+fl.name, "filter="+fl.name+"\n"+input,
+					fmt.Sprintf("%d compilations of the same texts at the same time, each with its own filter: %s %s%s\n%s\n(- compiled alone, + compiled beside the others)", len(c20Filters), o.Verdict(), o.Err, o.Panic, firstDiff(want, o.Dump)))
+			}
 		}
 	}
 	// ---- one set of parsed trees compiled several times.  Where that works at all (two unfiltered compilations of
